@@ -12,7 +12,7 @@ META = dict(
     level="fault_enumeration",
     shards={"quick": 8, "thorough": 16},
     watchdog_s={"quick": 1500, "thorough": 5400},
-    evaluations_counter="cases",
+    evaluations_counter="executions",
     min={"histories": 100, "faults_injected": 20, "faults_fired": 20, "registry_comparisons": 200, "purity_checks": 300,
          "library_purity_checks": 200, "forward_exception_exits": 10, "nested_contexts": 10, "twin_equivalence_checks": 100},
     anchors=["calibrate.py:Calibration.__enter__", "calibrate.py:Calibration.__exit__",
@@ -291,6 +291,7 @@ def run(ctx):
             continue
         r = ctx.crng
         ctx.count("histories")
+        ctx.count("executions")
         sig0 = dict(shape=script["shape"])
         try:
             model, shape, boom, kind = build_model(oq, r, wd, aq)
@@ -341,6 +342,7 @@ def run(ctx):
                 m2, shape2, boom2, _ = build_model(oq, r, wd, aq)
                 before = registries()
                 ctx.count("faults_injected")
+                ctx.count("executions")
                 try:
                     outcome = play(ctx, oq, m2, shape2, boom2, r, wd, script, fault=(f, k))
                 except Exception as e:
